@@ -16,7 +16,7 @@ func runC18(c *core.Check) {
 	c.Assumes = []string{"attribute values inside generated blocks are primitives (so that the written-out literal has the same type)", "marks are stripped before comparing (C06 owns mark propagation)"}
 	cfgs := []map[string]string{{"MaxItems": "2", "NestMode": "\"flat\""}, {"MaxItems": "1", "NestMode": "\"nested\""}}
 	if c.Tier == "thorough" {
-		cfgs = []map[string]string{{"MaxItems": "2", "NestMode": "\"nested\""}}
+		cfgs = []map[string]string{{"MaxItems": "2", "NestMode": "\"nested\""}, {"MaxItems": "3", "NestMode": "\"mix\""}}
 	}
 	c.Extra["constants"] = cfgs
 	for _, consts := range cfgs {
